@@ -140,7 +140,7 @@ for name in names:
                     check(topo, eq, key, junction)
                 except Exception as e:
                     wit.append({'key': key, 'problems': [f'{type(e).__name__}: {e}']})
-# a Raman span whose connector losses are left to the library defaults (its booster carries a delta_p: see DESIGN.md O1)
+# a Raman span whose connector losses are left to the library defaults (its booster carries a delta_p: see known finding F24)
 for con_in, con_out in ((None, 0.5), (0.35, 0.5)):
     cases += 1
     key = f'raman-span-connectors:{con_in}:{con_out}'
@@ -164,6 +164,21 @@ for con_in, con_out in ((None, 0.5), (0.35, 0.5)):
             wit.append({'key': key, 'problems': [f'RamanFiber connector losses ({rf.params.con_in}, {rf.params.con_out}), expected ({want_in}, {want_out})']})
     except Exception as e:
         wit.append({'key': key, 'problems': [f'{type(e).__name__}: {e}'[:300]]})
+# the same Raman span behind an amplifier that is left to the design (no delta_p): known finding F24
+cases += 1
+try:
+    eq = equipment()
+    topo = mesh(['A', 'B'], [('A', 'B')], spans={('A', 'B'): [80]})
+    for e in topo['elements']:
+        if e['uid'] == 'fiber (A -> B)-0':
+            e['type'] = 'RamanFiber'
+            e['params'].update({'con_in': 0.5, 'con_out': 0.5})
+            e['operational'] = {'temperature': 283, 'raman_pumps': [{'power': 0.2, 'frequency': 205e12, 'propagation_direction': 'counterprop'}]}
+    design(topo, eq)
+except TypeError as e:
+    wit.append({'key': 'raman-span-behind-an-amplifier-without-delta_p', 'problems': [f'auto-design stops with TypeError: {e}'[:200]]})
+except Exception as e:
+    wit.append({'key': 'raman-span-auto-booster', 'problems': [f'{type(e).__name__}: {e}'[:300]]})
 # multi-band auto-design: ROADMs designed for C+L get multi-band amplifiers everywhere, each band with its own gain / target
 CL = [{'f_min': 191.3e12, 'f_max': 196.0e12, 'spacing': 50e9}, {'f_min': 186.6e12, 'f_max': 190.0e12, 'spacing': 50e9}]
 for name in (['line2', 'ring3'] if a.tier == 'quick' else ['line2', 'line3', 'ring3', 'mesh4']):
